@@ -51,8 +51,9 @@ def compose_models(models_map: Dict[str, ModelMeta]) -> ModelsStructureType:
                 parent["nested"].insert(0, struct)
                 path_injections[struct["model"]] = parent["model"]
             else:
-                # Model is using by only one model
-                parent = structure_hash_table[next(iter(parents))]
+                # Model is using by only one model (recursive models could have several parents here:
+                # take the first one by index since iteration order of a set of strings differs from run to run)
+                parent = structure_hash_table[min(parents)]
                 struct = structure_hash_table[key]
                 parent["nested"].append(struct)
 
@@ -103,8 +104,8 @@ def compose_models_flat(models_map: Dict[Index, ModelMeta]) -> ModelsStructureTy
                 pos = max(parents_positions) if parents_positions else len(root_models)
                 positions.update_position(parents_joined, pos + 1)
             else:
-                # Model is using by only one model
-                parent = next(iter(parents))
+                # Model is using by only one model (see compose_models for the reason of min)
+                parent = min(parents)
                 pos = positions.get(parent, len(root_models))
                 positions.update_position(parent, pos + 1)
             positions.update_position(key, pos + 1)
